@@ -3,6 +3,7 @@ package props
 import (
 	"fmt"
 	"go/ast"
+	"go/token"
 	"go/types"
 	"regexp"
 	"strings"
@@ -16,12 +17,77 @@ func init() { Registry["C19"] = runC19 }
 
 const explanationC19 = "Decides structural necessary conditions of C19 on the request-ID, trace, sampler and capture middlewares through SSA path tables: (R19.1) on every path the downstream handler/invoker receives the context derived by GenerateRequestID / WithSpan / setTrace (HTTP, gRPC unary and stream); (R19.2) request-ID selection — the inbound value is consulted only under the trust flag, truncated to id[:limit] only under limit>0 ∧ len>limit, replaced by a fresh ID iff absent or empty, and stored under RequestIDKey; the HTTP and gRPC front-ends read the header/metadata only under the trust flag; (R19.3) trace extraction and injection tables mirror each other (TraceID header/metadata ↔ TraceIDKey, caller's span ↔ parent span, fresh span from the span function, WithSpan stores each argument under its own key); (R19.4) the sampler and discard list are consulted only when no inbound trace ID exists; (R19.6) the fixed sampler's 0 and 100 rows do not consult the RNG, NewSampler picks adaptive iff maxSamplingRate>0 with (rate,size) in order; (R19.7) ResponseCapture stores the status it forwards, adds the byte count the underlying writer returned, and records the implicit 200; (R19.8) every option constructor stores its argument into its own field; (R19.9) a wrapped server stream carries a context derived from the wrapped stream's own context; (R19.10) the shutdown sweep of the stream canceler visits every in-flight stream. NOT decided: uniqueness/non-emptiness of generated IDs as values, sampling statistics, chains of calls at run time."
 
+// Current is the context of the running check (set by main).
+var Current *an.Ctx
+
+// funcValues lists the function values fn creates, in source order: its function literals, and the declared
+// functions introduced since the reference tree that it uses as values (a literal that was given a name).
+func funcValues(fn *ssa.Function) []*ssa.Function {
+	if fn == nil {
+		return nil
+	}
+	var body ast.Node
+	switch x := fn.Syntax().(type) {
+	case *ast.FuncDecl:
+		body = x.Body
+	case *ast.FuncLit:
+		body = x.Body
+	}
+	if body == nil || Current == nil || fn.Pkg == nil {
+		return fn.AnonFuncs
+	}
+	p := Current.Pkgs[fn.Pkg.Pkg.Path()]
+	if p == nil {
+		return fn.AnonFuncs
+	}
+	info := p.TypesInfo
+	byPos := map[token.Pos]*ssa.Function{}
+	for _, af := range fn.AnonFuncs {
+		byPos[af.Pos()] = af
+	}
+	called := map[ast.Expr]bool{}
+	var out []*ssa.Function
+	seen := map[*ssa.Function]bool{}
+	ast.Inspect(body, func(n ast.Node) bool {
+		switch x := n.(type) {
+		case *ast.FuncLit:
+			if af := byPos[x.Type.Func]; af != nil {
+				out = append(out, af)
+			}
+			return false
+		case *ast.CallExpr:
+			called[an.Unparen(x.Fun)] = true
+			if se, ok := an.Unparen(x.Fun).(*ast.SelectorExpr); ok {
+				called[se.Sel] = true
+			}
+		case *ast.Ident:
+			if called[x] {
+				return true
+			}
+			fo, ok := info.Uses[x].(*types.Func)
+			if !ok || fo.Pkg() == nil || !strings.HasPrefix(fo.Pkg().Path(), an.Mod) {
+				return true
+			}
+			if sf := fn.Prog.FuncValue(fo); sf != nil && !an.IsReferenceFunc(sf) && !seen[sf] {
+				seen[sf] = true
+				out = append(out, sf)
+			}
+		}
+		return true
+	})
+	if len(out) < len(fn.AnonFuncs) {
+		return fn.AnonFuncs
+	}
+	return out
+}
+
 func anon(fn *ssa.Function, idx ...int) *ssa.Function {
 	for _, i := range idx {
-		if fn == nil || i >= len(fn.AnonFuncs) {
+		vals := funcValues(fn)
+		if fn == nil || i >= len(vals) {
 			return nil
 		}
-		fn = fn.AnonFuncs[i]
+		fn = vals[i]
 	}
 	return fn
 }
